@@ -12,6 +12,11 @@ LEVEL_TEXT = {
  'C06': 'Every reachable configuration x event x guard valuation from quiescent machines: per-region order, result-code contract and no_transition contract compared with the model and with direct predicates from the statement.',
  'C07': 'Nested machines (depth 2-3): bubbling level by level, single consumption, exit/entry cascades and configurations compared with the model on every explored execution.',
  'C08': 'Three history policies x plain / history-event / explicit / fork entry x all per-region positions, explored to closure; restored states and configurations compared with the model.',
+ 'C04': 'Nested submissions (process_event / enqueue_event on the local Fsm or the root) are injected at every guard/exit/action/entry/exception_caught position of every reachable step, during event processing and during start(); a model-independent monitor checks that no submitted event is dispatched before the submitting call returns, and the full callback sequence and the pending sets are compared with the reference model.',
+ 'C05': 'Deferring configurations (state property and guarded Defer rows) explored to closure with up to 3-4 pending events, also through interrupt/terminate blockages; the deferral ledger checks no no_transition at deferral, retention, arrival order and payload, the rest is compared with the model.',
+ 'C10': 'Completion chains, conflicting completion rows and completion inside a submachine explored with queued and deferred events pending; a monitor checks that the completion rows of an entered state are tried before any other event runs.',
+ 'C11': 'Terminate state and interrupt states (one / two end events) explored to closure with queued and deferred events pending; a model-independent monitor checks that a blocked machine shows no behaviour and no configuration change.',
+ 'C12': 'Every guard/exit/action/entry position of every reachable step is used as throw point (one faulty operation per history in quick, two in thorough) followed by all continuations to closure; containment, exception_caught contract, policy-prescribed active ids and usability are checked, and the whole exploration is repeated with zero- and pattern-initialised automatic variables and compared record by record.',
  'C09': 'Submachine with direct, fork, entry-point and exit-point rows explored to closure, including the exit point event sent from outside in every configuration.',
 }
 NOTE = 'Trusted: the reference model gen/model.py and oracle gen/oracles.py; the zoo structures (gen/zoo.py) stand for the "programs" quantifier; g++ 12 -O0; private members are only read (-fno-access-control). Bounds: zoo machines, pending queue <= stated bound; residue per DESIGN section 5.'
